@@ -10,9 +10,10 @@ from props import base
 PROP = "C06"
 PROPS_V = "theories/Props/C06.v"
 THEOREMS = ["C06_accept_iff_conforms", "C06_conforms_flat_exact_keys", "C06_reject_no_trace", "C06_accept_one_event",
-            "C06_define_error_keeps_schema", "C06_define_ok_appends",
+            "C06_define_error_keeps_schema", "C06_define_existing_rejected", "C06_define_error_iff", "C06_define_append_only",
+            "C06_define_ok_appends", "C06_reachable_wf",
             "C06_float_time_refuted", "C06_accept_iff_strict_outside_known",
-            "C06_text_refuted", "C06_text_accept_iff_conforms_outside_known", "C06_text_reject_no_trace"]
+            "C06_text_refuted", "C06_text_accept_iff_conforms_outside_known", "C06_text_reject_no_trace", "C06_blank_spec"]
 RULE = ("schemas (1-5 fields over every primitive alias in random case, `T | null` unions in both orders, malformed "
         "specs, enums, date/datetime) x payloads (a conforming payload per the property text, then 0-2 mutations: "
         "missing / extra / misspelled key, a value of every JSON type in a slot, i64/u64 boundary integers, floats in "
